@@ -13,6 +13,9 @@ def main(tier, seed):
     def regen():
         rc, out = sh([PY, str(VERIF / "harness" / "py2coq_handle.py"), str(REPO / "tinyflux"), str(COQ / "gen" / "HandleGen.v")], timeout=60)
         refused.extend(l for l in out.splitlines() if l.startswith("REFUSED"))
+        # len(handle) and iteration over a handle (and over the database) are compiled from measurement.py / database.py (proofs/DbGetGenP.v)
+        run_translator("py2coq_index.py", "tinyflux/index.py", "gen/IndexGen.v", refused)
+        run_translator("py2coq_dbget.py", "tinyflux", "gen/DbGetGen.v", refused)
     return dbtie.db_check("C10", tier, seed, PROFILE, 650, 6000, "Prop_C10",
                           "user callables and re are an environment the theorems quantify over; the tie instantiates them with the twin table",
                           pre=regen, extra_cov={"translator": {"source": "tinyflux/measurement.py (forwarding methods) + signatures of tinyflux/database.py -> coq/gen/HandleGen.v (regenerated on this run)",
